@@ -168,8 +168,9 @@ def _mask_graph(o, seen, depth=0):
     elif isinstance(o, dict):
         for x in o.values():
             _mask_graph(x, seen, depth + 1)
-    elif hasattr(o, "__dict__"):
-        for x in vars(o).values():
+    else:
+        from ..fingerprint import attrs
+        for x in (attrs(o) or {}).values():
             _mask_graph(x, seen, depth + 1)
 
 
